@@ -688,6 +688,32 @@ Proof.
   destruct (is_auto (g_proto g)); [destruct (kind_eqb (c_kind x) KH2) |]; discriminate.
 Qed.
 
+(* the driver of a connection that was dead on arrival ends at once *)
+Lemma full_reap : forall ns g q s c x,
+  Full ns g q s -> get c s = Some x -> c_infl x = [] -> c_cut x = false ->
+  Full ns g q (reap c s).
+Proof.
+  intros ns g q s c x F Hx Hi Hc. unfold reap. rewrite Hx.
+  destruct (c_gone x && live x) eqn:Hg; auto. apply andb_prop in Hg. destruct Hg as [_ Hl].
+  assert (HR := full_get _ _ _ _ _ _ F Hx).
+  rewrite emit_emits.
+  eapply full_conn with (fy := cm_done) (x := x);
+    [exact F | exact Hx | apply conn_only_updc | reflexivity | reflexivity | | discriminate | discriminate | reflexivity].
+  rc_start HR. unfold live in Hl. destruct x as [k p t cu ga il go fa ke]. cbn in *. subst il cu.
+  destruct p; try discriminate; constructor; cbn in *; auto; intros; rc_fin.
+Qed.
+
+Lemma reap_same : forall c s,
+  s_srv (reap c s) = s_srv s
+  /\ (forall c' x, get c' (reap c s) = Some x -> c_ph x = Queued -> get c' s = Some x).
+Proof.
+  intros. unfold reap. destruct (get c s) as [x0|] eqn:Hx; [| auto].
+  destruct (c_gone x0 && live x0); [| auto]. split; [reflexivity |].
+  intros c' x. rewrite get_emit. destruct (Nat.eq_dec c c') as [<- | Hne].
+  - rewrite get_modc_eq, Hx. cbn. intros H. inv H. discriminate.
+  - rewrite get_modc_neq by auto. auto.
+Qed.
+
 Lemma accept_loop_unfold : forall g q s,
   accept_loop g q s =
   if g_graceful g && s_fired s then finish true (set_queue q s)
@@ -705,7 +731,7 @@ Lemma accept_loop_unfold : forall g q s,
               let s1 := emit (OAccept c) s in
               if s_armed s1
               then finish false (set_queue q' (set_armed false (modc c (w_ph Dropped) s1)))
-              else accept_loop g q' (make_signal g (emit (OSpawn c) (modc c (spawn_ph g) s1)))
+              else accept_loop g q' (make_signal g (reap c (emit (OSpawn c) (modc c (spawn_ph g) s1))))
           | _ => accept_loop g q' s
           end
       | None => accept_loop g q' s
@@ -795,12 +821,19 @@ Proof.
            | intros H; now apply spawn_ph_not_queued in H | auto | reflexivity].
         intros _. cbn. now rewrite Hfm. }
       set (s2 := emits [OAccept c; OSpawn c] (modc c (spawn_ph g) s)) in *.
-      destruct (make_signal_same g s2) as (M1 & M2 & M3 & M4).
+      assert (Hx2 : get c s2 = Some (spawn_ph g x)).
+      { subst s2. rewrite get_emits, get_modc_eq, Hx. reflexivity. }
+      destruct (reap_same c s2) as (R1 & R2).
+      destruct (make_signal_same g (reap c s2)) as (M1 & M2 & M3 & M4).
       apply IH.
-      * apply full_make_signal. eapply full_queue_param; [exact F1 |]. intros c' x' Hg Hq [H | H]; auto.
-        inv H. subst s2. rewrite get_emits, get_modc_eq, Hx in Hg. cbn in Hg. inv Hg.
-        now apply spawn_ph_not_queued in Hq.
-      * unfold srv_done. rewrite M1. exact Hd.
+      * apply full_make_signal. eapply full_queue_param.
+        -- eapply full_reap; [exact F1 | exact Hx2 | |];
+             rc_start HR; destruct x as [k p t cu ga il go fa ke]; cbn in *; subst p;
+             destruct (Rquiet eq_refl); auto.
+        -- intros c' x' Hg Hq [H | H]; auto.
+           inv H. apply R2 in Hg; auto. rewrite Hx2 in Hg. inv Hg.
+           now apply spawn_ph_not_queued in Hq.
+      * unfold srv_done. rewrite M1, R1. exact Hd.
 Qed.
 
 Lemma server_poll_done : forall g s, srv_done s = true -> server_poll g s = s.
@@ -1257,7 +1290,7 @@ Proof.
             rewrite app_length in H. cbn in H. fold c in H. lia. }
           rewrite nth_error_app1 in Hn by (fold c; lia). eapply NS; eauto.
       + subst s1. apply good_emit; [eapply good_out; [| exact G]; reflexivity | reflexivity]. }
-  cbn [step]. fold c. fold s1.
+  cbn [step]. unfold connect. fold c. fold s1.
   destruct (srv_done s || s_lost s) eqn:Hdl.
   - apply F1; auto. intros; discriminate.
   - apply full_set_queue. cbn [set_queue s_queue]. apply F1.
@@ -1324,6 +1357,20 @@ Proof.
   destruct e; cbn [step].
   - now apply full_connect.
   - now apply full_cancelled.
+  - (* dead on arrival: an ordinary connect whose client is marked gone *)
+    assert (F1 : Full ns g (s_queue (step g s (EConnect KH1))) (step g s (EConnect KH1))).
+    { apply full_connect; auto. intros _ _. split; reflexivity. }
+    change (step g s (EConnect KH1)) with (connect s KH1) in F1.
+    set (c := length (s_conns s)). set (s1 := connect s KH1) in *.
+    assert (Hx : get c s1 = Some (new_conn KH1)).
+    { subst s1 c. unfold connect, get. destruct (srv_done s || s_lost s); cbn;
+        rewrite nth_error_app2 by lia; now rewrite Nat.sub_diag. }
+    assert (HR := full_get _ _ _ _ _ _ F1 Hx).
+    unfold mark_dead. rewrite emit_emits.
+    change (s_queue (emits [OFault c] (modc c w_gone s1))) with (s_queue s1).
+    eapply full_conn with (fy := cm_fault) (x := new_conn KH1);
+      [exact F1 | exact Hx | apply conn_only_updc | reflexivity | reflexivity | | auto | auto | reflexivity].
+    rc_start HR. constructor; cbn in *; auto; intros; try discriminate.
   - destruct (s_lost s) eqn:Hl; auto.
     eapply full_cause with (s := s) (o := OLost); eauto; try reflexivity.
   - eapply full_cause with (s := s) (o := OMakeArm); eauto; try reflexivity.
@@ -1606,6 +1653,9 @@ Lemma causes_fold : forall (f : state -> nat -> state) l s,
   (forall s c, causes (f s c) = causes s) -> causes (fold_left f l s) = causes s.
 Proof. induction l; cbn; intros; auto. rewrite IHl; auto. Qed.
 
+Lemma causes_none : forall s s', causes s' = causes s -> s_sigarm s = None -> s_sigarm s' = None.
+Proof. unfold causes. intros s s' H Hn. inv H. congruence. Qed.
+
 Lemma causes_accept_loop : forall g q s,
   s_sigarm s = None -> causes (accept_loop g q s) = causes s.
 Proof.
@@ -1615,7 +1665,10 @@ Proof.
     destruct e as [c|]; auto. destruct (get c s) as [x|]; auto. destruct (c_ph x); auto.
     cbv zeta. change (s_armed (emit (OAccept c) s)) with (s_armed s). destruct (s_armed s).
     + reflexivity.
-    + unfold make_signal. cbn [s_sigarm emit modc set_conns]. rewrite Hn. rewrite IH; auto.
+    + assert (Hr : causes (reap c (emit (OSpawn c) (modc c (spawn_ph g) (emit (OAccept c) s)))) = causes s).
+      { unfold causes, reap. causes_tac. }
+      unfold make_signal. rewrite (causes_none _ _ Hr Hn). rewrite IH; auto.
+      eapply causes_none; eauto.
 Qed.
 
 Lemma causes_settle : forall g s, s_sigarm s = None -> causes (settle g s) = causes s.
@@ -1663,17 +1716,15 @@ Proof. intros. unfold causes, act_disc. causes_tac. Qed.
 Lemma causes_act_garb : forall c s, causes (act_garb c s) = causes s.
 Proof. intros. unfold causes, act_garb. causes_tac. Qed.
 
-Lemma causes_none : forall s s', causes s' = causes s -> s_sigarm s = None -> s_sigarm s' = None.
-Proof. unfold causes. intros s s' H Hn. inv H. congruence. Qed.
-
 Lemma causes_step : forall g s e,
   s_sigarm s = None -> is_cause_ev e = false -> causes (step g s e) = causes s.
 Proof.
   intros g s e Hn H.
   assert (Hs := causes_settle g s Hn). assert (Hn' := causes_none _ _ Hs Hn).
   destruct e; try discriminate; cbn [step].
+  - unfold causes, connect. causes_tac.
   - unfold causes. causes_tac.
-  - unfold causes. causes_tac.
+  - unfold causes, mark_dead, connect. causes_tac.
   - change (causes (emit OQuiet (settle g s))) with (causes (settle g s)). exact Hs.
   - change (causes (act_partial g c (settle g s)) = causes s). now rewrite causes_act_partial.
   - change (causes (act_req g c (settle g s)) = causes s). now rewrite causes_act_req.
